@@ -80,7 +80,11 @@ def select(tests: T.Sequence[T.Dict[str, T.Any]], run: T.Dict[str, T.Any], top: 
         ex = run.get('exclude') or []
         if (t['proj'] == top and t['name'] in ex) or f"{t['proj']}:{t['name']}" in ex:
             continue
-        if run.get('suites') and not in_suites(t, run['suites'], top):
+        if run.get('suites'):
+            # suites named with --suite always run, overriding the setup's exclude_suites
+            if not in_suites(t, run['suites'], top):
+                continue
+        elif run.get('setup_exclude') and in_suites(t, run['setup_exclude'], top):
             continue
         if run.get('names') and not any(name_matches(t, a) for a in run['names']):
             continue
